@@ -227,39 +227,53 @@ Qed.
 
 (* ------------------------------------------------------------------ the executable instance (zp_ops on Z) is the
    same function as the sigma-type instance, coefficient-wise: what the correspondence runs is what is proved *)
+Ltac valtac :=
+  intros;
+  repeat match goal with a : (Zp _ * Zp _ * Zp _)%type |- _ => destruct a as [[? ?] ?] end;
+  repeat match goal with a : (Zp _ * Zp _)%type |- _ => destruct a end;
+  cbv [val2 val3 c0 c1 c2 fst snd
+       f64_ext2_mul f64_ext2_square f64_ext2_frobenius f64_ext3_mul f64_ext3_square f64_ext3_frobenius
+       f62_ext2_mul f62_ext2_frobenius f62_ext3_mul f62_ext3_frobenius f128_ext2_mul f128_ext2_frobenius
+       F64_ops F62_ops F128_ops zpT_ops zp_ops fzero fone fadd fsub fmul fneg fdouble fsquare fofz zp_mk zp_val proj1_sig];
+  reflexivity.
 Lemma f64_ext2_mul_val : forall a b, val2 (f64_ext2_mul F64_ops a b) = f64_ext2_mul (zp_ops P64) (val2 a) (val2 b).
-Proof. reflexivity. Qed.
+Proof. valtac. Qed.
 Lemma f64_ext2_square_val : forall a, val2 (f64_ext2_square F64_ops a) = f64_ext2_square (zp_ops P64) (val2 a).
-Proof. reflexivity. Qed.
+Proof. valtac. Qed.
 Lemma f64_ext2_frob_val : forall a, val2 (f64_ext2_frobenius F64_ops a) = f64_ext2_frobenius (zp_ops P64) (val2 a).
-Proof. reflexivity. Qed.
+Proof. valtac. Qed.
 Lemma f64_ext3_mul_val : forall a b, val3 (f64_ext3_mul F64_ops a b) = f64_ext3_mul (zp_ops P64) (val3 a) (val3 b).
-Proof. reflexivity. Qed.
+Proof. valtac. Qed.
 Lemma f64_ext3_square_val : forall a, val3 (f64_ext3_square F64_ops a) = f64_ext3_square (zp_ops P64) (val3 a).
-Proof. reflexivity. Qed.
+Proof. valtac. Qed.
 Lemma f64_ext3_frob_val : forall a, val3 (f64_ext3_frobenius F64_ops a) = f64_ext3_frobenius (zp_ops P64) (val3 a).
-Proof. reflexivity. Qed.
+Proof. valtac. Qed.
 Lemma f62_ext2_mul_val : forall a b, val2 (f62_ext2_mul F62_ops a b) = f62_ext2_mul (zp_ops P62) (val2 a) (val2 b).
-Proof. reflexivity. Qed.
+Proof. valtac. Qed.
 Lemma f62_ext2_frob_val : forall a, val2 (f62_ext2_frobenius F62_ops a) = f62_ext2_frobenius (zp_ops P62) (val2 a).
-Proof. reflexivity. Qed.
+Proof. valtac. Qed.
 Lemma f62_ext3_mul_val : forall a b, val3 (f62_ext3_mul F62_ops a b) = f62_ext3_mul (zp_ops P62) (val3 a) (val3 b).
-Proof. reflexivity. Qed.
+Proof. valtac. Qed.
 Lemma f62_ext3_frob_val : forall a, val3 (f62_ext3_frobenius F62_ops a) = f62_ext3_frobenius (zp_ops P62) (val3 a).
-Proof. reflexivity. Qed.
+Proof. valtac. Qed.
 Lemma f128_ext2_mul_val : forall a b, val2 (f128_ext2_mul F128_ops a b) = f128_ext2_mul (zp_ops P128) (val2 a) (val2 b).
-Proof. reflexivity. Qed.
+Proof. valtac. Qed.
 Lemma f128_ext2_frob_val : forall a, val2 (f128_ext2_frobenius F128_ops a) = f128_ext2_frobenius (zp_ops P128) (val2 a).
-Proof. reflexivity. Qed.
+Proof. valtac. Qed.
 
 Definition oval2 {p} (o : option (Zp p * Zp p)) : option (Z * Z) := option_map val2 o.
 Definition oval3 {p} (o : option (Zp p * Zp p * Zp p)) : option (Z * Z * Z) := option_map val3 o.
+Ltac invtac :=
+  cbv [oval2 oval3 option_map val2 val3 q_inv c_inv q_eqb c_eqb q_zero c_zero c0 c1 c2
+       f64_x2 f64_x3 x2_mul x2_frob x3_mul x3_frob
+       f64_ext2_mul f64_ext2_frobenius f64_ext3_mul f64_ext3_frobenius fst snd
+       F64_ops zpT_ops zp_ops fzero fone fadd fsub fmul fneg fdouble fsquare finv feqb fofz zp_mk zp_val proj1_sig
+       andb negb];
+  repeat match goal with |- context [if ?c then _ else _] => destruct c end; reflexivity.
 Lemma f64_q_inv_val : forall dbg a, oval2 (q_inv F64_ops (f64_x2 F64_ops) dbg a) = q_inv (zp_ops P64) (f64_x2 (zp_ops P64)) dbg (val2 a).
-Proof. intros dbg [a0 a1]. unfold q_inv, q_eqb. cbn [fst snd val2 feqb F64_ops zpT_ops zp_ops q_zero fzero proj1_sig zp_val].
-  destruct (_ && _); [reflexivity|]. destruct (_ && _); reflexivity. Qed.
+Proof. intros dbg [[a0 ?] [a1 ?]]. invtac. Qed.
 Lemma f64_c_inv_val : forall dbg a, oval3 (c_inv F64_ops (f64_x3 F64_ops) dbg a) = c_inv (zp_ops P64) (f64_x3 (zp_ops P64)) dbg (val3 a).
-Proof. intros dbg [[a0 a1] a2]. unfold c_inv, c_eqb. cbn [fst snd c0 c1 c2 val3 feqb F64_ops zpT_ops zp_ops c_zero fzero proj1_sig zp_val].
-  destruct (_ && _ && _); [reflexivity|]. destruct (_ && _); [reflexivity|]. destruct (_ && _); reflexivity. Qed.
+Proof. intros dbg [[[a0 ?] [a1 ?]] [a2 ?]]. invtac. Qed.
 
 (* ------------------------------------------------------------------ unconditional inverse theorems *)
 Theorem f64_quad_inv_spec : forall dbg a, a <> q_zero F64_ops ->
@@ -311,3 +325,40 @@ Theorem f64_cube_no_zero_div : forall a b, f64_ext3_mul F64_ops a b = c_zero F64
 Proof. exact (c_no_zero_div F64_ops F64_laws _ _ _ _ _ _ _ _ _ (f64_x3_correct F64_ops F64_laws) f64_cubic_no_root). Qed.
 Theorem f62_cube_no_zero_div : forall a b, f62_ext3_mul F62_ops a b = c_zero F62_ops -> a = c_zero F62_ops \/ b = c_zero F62_ops.
 Proof. exact (c_no_zero_div F62_ops F62_laws _ _ _ _ _ _ _ _ _ (f62_x3_correct F62_ops F62_laws) f62_cubic_no_root). Qed.
+
+(* ------------------------------------------------------------------ bundles used by Props/C08.v *)
+Theorem frob_consts_all :
+  (c_exp F64_ops (f64_x3 F64_ops) (phi F64_ops) P64 = f64_ext3_frobenius F64_ops (phi F64_ops) /\
+   c_exp F64_ops (f64_x3 F64_ops) (phi2 F64_ops) P64 = f64_ext3_frobenius F64_ops (phi2 F64_ops)) /\
+  (c_exp F62_ops (f62_x3 F62_ops) (phi F62_ops) P62 = f62_ext3_frobenius F62_ops (phi F62_ops) /\
+   c_exp F62_ops (f62_x3 F62_ops) (phi2 F62_ops) P62 = f62_ext3_frobenius F62_ops (phi2 F62_ops)) /\
+  q_exp F64_ops (f64_x2 F64_ops) (fzero F64_ops, fone F64_ops) P64 = f64_ext2_frobenius F64_ops (fzero F64_ops, fone F64_ops) /\
+  q_exp F62_ops (f62_x2 F62_ops) (fzero F62_ops, fone F62_ops) P62 = f62_ext2_frobenius F62_ops (fzero F62_ops, fone F62_ops) /\
+  q_exp F128_ops (f128_x2 F128_ops) (fzero F128_ops, fone F128_ops) P128 = f128_ext2_frobenius F128_ops (fzero F128_ops, fone F128_ops).
+Proof.
+  split; [split; apply val3_inj; vm_compute; reflexivity|].
+  split; [split; apply val3_inj; vm_compute; reflexivity|].
+  exact (conj f64_frob2_consts_spec (conj f62_frob2_consts_spec f128_frob2_consts_spec)).
+Qed.
+
+Theorem executable_instance_agrees :
+  (forall a b, val2 (f64_ext2_mul F64_ops a b) = f64_ext2_mul (zp_ops P64) (val2 a) (val2 b)) /\
+  (forall a, val2 (f64_ext2_square F64_ops a) = f64_ext2_square (zp_ops P64) (val2 a)) /\
+  (forall a, val2 (f64_ext2_frobenius F64_ops a) = f64_ext2_frobenius (zp_ops P64) (val2 a)) /\
+  (forall a b, val3 (f64_ext3_mul F64_ops a b) = f64_ext3_mul (zp_ops P64) (val3 a) (val3 b)) /\
+  (forall a, val3 (f64_ext3_square F64_ops a) = f64_ext3_square (zp_ops P64) (val3 a)) /\
+  (forall a, val3 (f64_ext3_frobenius F64_ops a) = f64_ext3_frobenius (zp_ops P64) (val3 a)) /\
+  (forall a b, val2 (f62_ext2_mul F62_ops a b) = f62_ext2_mul (zp_ops P62) (val2 a) (val2 b)) /\
+  (forall a, val2 (f62_ext2_frobenius F62_ops a) = f62_ext2_frobenius (zp_ops P62) (val2 a)) /\
+  (forall a b, val3 (f62_ext3_mul F62_ops a b) = f62_ext3_mul (zp_ops P62) (val3 a) (val3 b)) /\
+  (forall a, val3 (f62_ext3_frobenius F62_ops a) = f62_ext3_frobenius (zp_ops P62) (val3 a)) /\
+  (forall a b, val2 (f128_ext2_mul F128_ops a b) = f128_ext2_mul (zp_ops P128) (val2 a) (val2 b)) /\
+  (forall a, val2 (f128_ext2_frobenius F128_ops a) = f128_ext2_frobenius (zp_ops P128) (val2 a)) /\
+  (forall dbg a, oval2 (q_inv F64_ops (f64_x2 F64_ops) dbg a) = q_inv (zp_ops P64) (f64_x2 (zp_ops P64)) dbg (val2 a)) /\
+  (forall dbg a, oval3 (c_inv F64_ops (f64_x3 F64_ops) dbg a) = c_inv (zp_ops P64) (f64_x3 (zp_ops P64)) dbg (val3 a)).
+Proof.
+  exact (conj f64_ext2_mul_val (conj f64_ext2_square_val (conj f64_ext2_frob_val (conj f64_ext3_mul_val
+        (conj f64_ext3_square_val (conj f64_ext3_frob_val (conj f62_ext2_mul_val (conj f62_ext2_frob_val
+        (conj f62_ext3_mul_val (conj f62_ext3_frob_val (conj f128_ext2_mul_val (conj f128_ext2_frob_val
+        (conj f64_q_inv_val f64_c_inv_val))))))))))))).
+Qed.
